@@ -334,6 +334,41 @@ theorem C11_lay_step_returns (f : Field) (hl : Lay f) (o : IOp) (ho : o.lay) (hl
       obtain ⟨f', h1, _⟩ := lay_removeEntryAt f hl i p hp
       exact ⟨f', by simp [istep, IOp.resolve, step, Field.removeEntry, hp, h1]⟩
 
+theorem entry?_none_of_le (s : FieldS) (i : Nat) (h : S.nEntries s ≤ i) : S.entry? s i = none := by
+  induction s generalizing i with
+  | nil => rfl
+  | cons x xs ih =>
+    cases x with
+    | subst t => simp only [S.entry?]; exact ih i (by simpa [S.nEntries, ItemS.isAlts] using h)
+    | alts rs =>
+      have e : S.nEntries (ItemS.alts rs :: xs) = S.nEntries xs + 1 := by simp [S.nEntries, List.countP_cons, ItemS.isAlts]
+      cases i with
+      | zero => omega
+      | succ i => simp only [S.entry?]; exact ih i (by omega)
+
+/-- the indices are in range on the tree when they are in range on the list model: entry `i` exists and
+    has more than `j` alternatives -/
+theorem C11_located_of_model (f : Field) (i j : Nat) (rs : List RelRec) (h : S.entry? (abs f.root) i = some rs)
+    (hj : j < rs.length) : (nthNode .ENTRY f.kids i).isSome ∧ (locate f i j).isSome := by
+  obtain ⟨g1, g2⟩ := C11_getEntry f i
+  cases hn : nthNode .ENTRY f.kids i with
+  | none =>
+    have := entry?_none_of_le _ i (g2 hn)
+    rw [h] at this; cases this
+  | some p =>
+    obtain ⟨e, he, hrs⟩ := g1 p hn
+    rw [h] at hrs
+    simp only [Option.some.injEq] at hrs
+    have hek : f.entryKids p = e.children := by simp [Field.entryKids, he]
+    refine ⟨rfl, ?_⟩
+    cases hq : nthNode .RELATION (f.entryKids p) j with
+    | some q => simp [locate, hn, hq]
+    | none =>
+      have h1 := nthPos_none hq
+      rw [hek, ← cn_length_countP] at h1
+      rw [hrs, relsOf_eq, List.length_map] at hj
+      omega
+
 /-! ### whole histories from ANY well-formed layout -/
 
 theorem irun_append (f : Field) (os1 os2 : List IOp) :
